@@ -109,7 +109,7 @@ package statefulset
 //@ spec func desiredG(o int) bool = desired(gR, gS, o)
 //@ spec func inSnap(p *v1.Pod) bool = exists k int :: {gSnap[k]} 0 <= k && k < len(gSnap) && gSnap[k] == p
 //@ spec func condemnedP(p *v1.Pod) bool = inSnap(p) && ordOf(p) >= 0 && !desiredG(ordOf(p))
-//@ spec func replaceable(p *v1.Pod) bool = inSnap(p) && desiredG(ordOf(p)) && (isFailedS(p) || isSucceededS(p))
+//@ spec func replaceable(p *v1.Pod) bool = inSnap(p) && !condemnedP(p) && (isFailedS(p) || isSucceededS(p))
 //@ spec func outdated(p *v1.Pod) bool = gStrategy == "RollingUpdate" && ordOf(p) >= gPartition && revOf(p) != gUpdRev
 //@ spec func vacant(o int) bool = desiredG(o) && (forall k int :: {gSnap[k]} 0 <= k && k < len(gSnap) ==> ordOf(gSnap[k]) != o)
 //@ spec func snapHealthyAt(o int) bool = exists k int :: {gSnap[k]} 0 <= k && k < len(gSnap) && ordOf(gSnap[k]) == o && isRunningAndReadyS(gSnap[k]) && !isTerminatingS(gSnap[k])
@@ -255,7 +255,8 @@ package statefulset
 //@   loop 1 "range pods"
 //@     invariant len(replicas) == replicaCount && 0 <= len(condemned) && len(condemned) <= i
 //@     invariant statusrange: status.Replicas == i && 0 <= status.ReadyReplicas && status.ReadyReplicas <= i && 0 <= status.CurrentReplicas && status.CurrentReplicas <= i && 0 <= status.UpdatedReplicas && status.UpdatedReplicas <= i
-//@     invariant placed: forall o int :: {replicas[o]} 0 <= o && o < replicaCount && replicas[o] != nil ==> inSnap(replicas[o]) && ordOf(replicas[o]) == o && desiredG(o)
+//@     invariant [C01,C03,C04,C05,C07,C12,C14] placedsnap: forall o int :: {replicas[o]} 0 <= o && o < replicaCount && replicas[o] != nil ==> inSnap(replicas[o]) && ordOf(replicas[o]) == o
+//@     invariant [C01,C03,C04] placeddesired: forall o int :: {replicas[o]} 0 <= o && o < replicaCount && replicas[o] != nil ==> desiredG(o)
 //@     invariant [C03,C05,C14] condemnedok: forall j int :: {condemned[j]} 0 <= j && j < len(condemned) ==> condemned[j] != nil && condemnedP(condemned[j])
 //@     invariant [C01,C04,C05,C07,C14] occupied: forall k int :: {pods[k]} 0 <= k && k < i && desiredG(ordOf(pods[k])) ==> replicas[ordOf(pods[k])] == pods[k]
 //@     invariant [C05,C14] condemnedall: forall k int :: {pods[k]} 0 <= k && k < i && condemnedP(pods[k]) ==> 0 <= cpos[k] && cpos[k] < len(condemned) && condemned[cpos[k]] == pods[k]
@@ -266,9 +267,9 @@ package statefulset
 //@   loop 2 "for ord := 0; ord < replicaCount"
 //@     invariant 0 <= ord && ord <= replicaCount && len(replicas) == replicaCount
 //@     invariant alloc: forall o int :: {replicas[o]} 0 <= o && o < replicaCount ==> allocated(replicas[o])
-//@     invariant placedord: forall o int :: {replicas[o]} 0 <= o && o < replicaCount && replicas[o] != nil ==> ordOf(replicas[o]) == o && (inSnap(replicas[o]) || isNewP(replicas[o]))
-//@     invariant labelsalloc: forall o int :: {replicas[o]} 0 <= o && o < replicaCount && replicas[o] != nil ==> allocated(replicas[o].Labels)
-//@     invariant [C03,C05,C07] snapdesired: forall o int :: {replicas[o]} 0 <= o && o < replicaCount && replicas[o] != nil && inSnap(replicas[o]) ==> desiredG(o)
+//@     invariant [C01,C03,C04,C05,C07,C12,C14] placedord: forall o int :: {replicas[o]} 0 <= o && o < replicaCount && replicas[o] != nil ==> ordOf(replicas[o]) == o && (inSnap(replicas[o]) || isNewP(replicas[o]))
+//@     invariant [C12] labelsalloc: forall o int :: {replicas[o]} 0 <= o && o < replicaCount && replicas[o] != nil ==> allocated(replicas[o].Labels)
+//@     invariant [C03] snapdesired: forall o int :: {replicas[o]} 0 <= o && o < replicaCount && replicas[o] != nil && inSnap(replicas[o]) ==> desiredG(o)
 //@     invariant [C01,C04] onlydesired: forall o int :: {replicas[o]} 0 <= o && o < replicaCount && replicas[o] != nil ==> desiredG(o) && (inSnap(replicas[o]) || vacant(o))
 //@     invariant [C01,C04,C05,C07,C14] filled: forall o int :: {replicas[o]} 0 <= o && o < ord && desiredG(o) ==> replicas[o] != nil
 //@     invariant [C01,C04,C05,C07,C14] occupied: forall k int :: {pods[k]} 0 <= k && k < len(pods) && desiredG(ordOf(pods[k])) ==> replicas[ordOf(pods[k])] == pods[k]
@@ -286,9 +287,9 @@ package statefulset
 //@     invariant len(replicas) == replicaCount && !gDeleting && gUpdDeletes == 0
 //@     invariant alloc: forall o int :: {replicas[o]} 0 <= o && o < replicaCount ==> allocated(replicas[o])
 //@     invariant statusrange: 0 - i <= status.Replicas && status.Replicas <= len(pods) + i && 0 - i <= status.CurrentReplicas && status.CurrentReplicas <= len(pods) + i && 0 - i <= status.UpdatedReplicas && status.UpdatedReplicas <= len(pods) + i
-//@     invariant placedord: forall o int :: {replicas[o]} {count(gS, 0, o)} 0 <= o && o < replicaCount && replicas[o] != nil ==> ordOf(replicas[o]) == o && (inSnap(replicas[o]) || isNewP(replicas[o]))
-//@     invariant labelsalloc: forall o int :: {replicas[o]} 0 <= o && o < replicaCount && replicas[o] != nil ==> allocated(replicas[o].Labels)
-//@     invariant [C03,C05,C07] snapdesired: forall o int :: {replicas[o]} 0 <= o && o < replicaCount && replicas[o] != nil && inSnap(replicas[o]) ==> desiredG(o)
+//@     invariant [C01,C03,C04,C05,C07,C12,C14] placedord: forall o int :: {replicas[o]} {count(gS, 0, o)} 0 <= o && o < replicaCount && replicas[o] != nil ==> ordOf(replicas[o]) == o && (inSnap(replicas[o]) || isNewP(replicas[o]))
+//@     invariant [C12] labelsalloc: forall o int :: {replicas[o]} 0 <= o && o < replicaCount && replicas[o] != nil ==> allocated(replicas[o].Labels)
+//@     invariant [C03] snapdesired: forall o int :: {replicas[o]} 0 <= o && o < replicaCount && replicas[o] != nil && inSnap(replicas[o]) ==> desiredG(o)
 //@     invariant [C01,C04] onlydesired: forall o int :: {replicas[o]} 0 <= o && o < replicaCount && replicas[o] != nil ==> desiredG(o)
 //@     invariant [C01,C04] pending: forall o int :: {replicas[o]} i <= o && o < replicaCount && replicas[o] != nil && !inSnap(replicas[o]) ==> vacant(o)
 //@     invariant [C01,C04,C05,C07,C14] filled: forall o int :: {replicas[o]} {count(gS, 0, o)} 0 <= o && o < replicaCount && desiredG(o) ==> replicas[o] != nil
